@@ -103,12 +103,12 @@ def _judge_forms(case, outs, verdict, kind, emit):
         if o[0] == "ok":
             # values denote the input
             cols = o[2]
-            xi, ii = cols.index("X"), cols.index("Id_1")
-            got = {r[ii]: r[xi] for r in o[1]}
+            xi, ii = cols.index("X"), (cols.index("Id_1") if "Id_1" in cols else None)
+            got = {(r[ii] if ii is not None else 0): r[xi] for r in o[1]}
             wrong = None
             for row, c in zip(case["rows"], case["cells"]):
                 exp = c[2]
-                g = got.get(row[0])
+                g = got.get(row[0] if ii is not None else 0)
                 if c[0] == "":
                     if g is not None and case["type"] != "String":
                         wrong = (c[0], g, None)
@@ -132,6 +132,9 @@ def run_shard(spec, emit):
     from vf import eng, inputs
     rng = random.Random(f"C19-{spec['seed']}-{spec['shard']}")
     bud = eng.Budget(spec.get("budget_s", 100 if spec["tier"] == "quick" else 2400))
+    for i, case in enumerate(inputs.cell_sweep()):          # deterministic: every catalogued cell once
+        if i % spec["nshards"] == spec["shard"]:
+            run_case(case, emit)
     for _ in range(spec["n"]):
         if not bud.ok():
             emit({"v": "inc", "why": "cut by wall-clock budget"})
